@@ -11,6 +11,12 @@ PROP_POOL_CLAUSES = ['(or p q r)', '(or (not p) q s)', '(or p (not q) r)', '(or 
 _A, _B, _C, _D = '(< x y)', '(< y z)', '(< x z)', '(< z x)'
 LRA_POOL_CLAUSES = ['(or p q)', '(or (not p) %s)' % _A, '(or (not q) %s)' % _B, '(or (not %s) (not %s) q)' % (_A, _C), '(or (not %s) (not q))' % _C, '(or (not p) %s)' % _B, '(or (not q) %s)' % _A,
                     '(or p (not %s))' % _D, '(or q %s)' % _C, '(or (not %s) p)' % _C, '(or %s (not %s) q)' % (_D, _A), '(or (not %s) (not q) %s)' % (_D, _C), '(or %s %s)' % (_A, _B), '(or (not %s) (not p) %s)' % (_B, _D)]
+# binary clauses over bound atoms of x, y and x + y and two Boolean variables: bound atoms propagate each other in the theory
+# (x >= 5 gives x >= 0 and not x <= 2, ...), so reasons of BCP-implied literals contain theory-propagated literals.  The first six
+# are the clauses of the demonstration of seeded/C12 (the family was added after that seed had been missed).
+BOUND_POOL_CLAUSES = ['(or (not p) (not q))', '(or (>= x 0) (not (<= x 2)))', '(or (not p) (not (>= y 1)))', '(or (<= (+ y x) 0) (>= x 5))', '(or (>= y 2) (not (<= y 0)))', '(or (>= y 2) (not (>= x 5)))',
+                      '(or p (>= x 5))', '(or q (<= y 0))', '(or (not q) (>= y 1))', '(or (<= x 2) (>= y 2))', '(or (not (>= x 0)) (<= (+ y x) 0))', '(or p q)', '(or (not (<= (+ y x) 0)) (<= y 0))',
+                      '(or (>= x 0) (>= y 1))', '(or (not (>= y 2)) p)', '(or (<= x 2) (not q))']
 ENGINE_VECS = {'C11': [(), ('lookahead',), ('picky',), ('ghost',), ('noincr',), ('proofs',), ('itp',)],
                'C12': [(), ('lookahead',), ('picky',), ('ghost',), ('noincr',), ('asymm',), ('rcheck',), ('noelim',), ('proofs',), ('ccmin0',), ('restart1',)],
                'C13': [(), ('proofs',), ('nosubst',), ('itp',)],
@@ -129,8 +135,8 @@ def set_task(t):
     extra = fam.extra if pool == 'full' else ()
     res = core.new_result(); cov = res['cov']
     w = S.worker()
-    if pool in ('clauses', 'lraclauses'):
-        sets = [list(c) for k in (5, 6, 7) for c in itertools.combinations(PROP_POOL_CLAUSES if pool == 'clauses' else LRA_POOL_CLAUSES, k)]
+    if pool in ('clauses', 'lraclauses', 'boundclauses'):
+        sets = [list(c) for k in (5, 6, 7) for c in itertools.combinations({'clauses': PROP_POOL_CLAUSES, 'lraclauses': LRA_POOL_CLAUSES, 'boundclauses': BOUND_POOL_CLAUSES}[pool], k)]
         gen = sets[start::step]
     else:
         gen = itertools.islice(F.assertion_sets(atoms, n, extra), start, None, step)
@@ -207,6 +213,7 @@ def run(prop, tier):
     if prop == 'C12':
         chk.run_stage('propositional clause sets (5-7 of 12 clauses over 4 variables), %d option vectors' % len(vecs), st(['PROP'], 'clauses', 0, vecs, 16), set_task)
         chk.run_stage('clause sets over 2 Boolean variables and 4 order atoms (5-7 of 14 clauses; theory propagation inside conflict analysis), %d option vectors' % len(vecs[:6]), st(['QF_LRA'], 'lraclauses', 0, vecs[:6], 32), set_task)
+        chk.run_stage('binary clause sets over bound atoms of x, y, x+y and 2 Boolean variables (5-7 of 16 clauses), default / lookahead / ghost-vars', st(['QF_LRA'], 'boundclauses', 0, vecs[:4:1][:1] + [('lookahead',), ('ghost',)], 64), set_task)
     chk.run_stage('histories L<=5 (4 assertions), default options', [(prop, f, 4, 5, (), s, 4) for f in hf for s in range(4)], hist_task)
     if prop == 'C11':
         dlf = ['QF_RDL'] if tier == 'quick' else ['QF_RDL', 'QF_IDL']
